@@ -20,28 +20,28 @@ var runSerial atomic.Uint64
 
 // Run is one crash experiment.
 type Run struct {
-	Writer  WriterArgs
-	Strace  int    // if > 0: kill at the N-th pwrite64 (strace injection) instead of a hook point
-	ExtKill int    // if > 0: external SIGKILL this many ms after the writer went idle
+	Writer      WriterArgs
+	Strace      int // if > 0: kill at the N-th pwrite64 (strace injection) instead of a hook point
+	ExtKill     int // if > 0: external SIGKILL this many ms after the writer went idle
 	DelayReopen int // ms to wait before the bucket is reopened (lets a deadline pass while the bucket is closed)
-	Reader  ReaderArgs
-	Tmp     string
+	Reader      ReaderArgs
+	Tmp         string
 }
 
 type Outcome struct {
-	Opened    bool            `json:"opened"`
-	UUID      string          `json:"uuid"`
-	Acks      int             `json:"acks"`
-	InFlight  *kv.Op          `json:"inFlight,omitempty"`
-	InFlightI int             `json:"inFlightI"`
-	Applied   string          `json:"applied"` // "n/a", "applied", "not-applied"
-	Killed    bool            `json:"killed"`
-	Clean     bool            `json:"clean"`
-	MaxAckCas uint64          `json:"maxAckCas"`
-	Reader    ReaderOut       `json:"reader"`
-	Problems  []string        `json:"problems"`
-	WriterErr string          `json:"writerErr,omitempty"`
-	KillDesc  string          `json:"killDesc"`
+	Opened    bool      `json:"opened"`
+	UUID      string    `json:"uuid"`
+	Acks      int       `json:"acks"`
+	InFlight  *kv.Op    `json:"inFlight,omitempty"`
+	InFlightI int       `json:"inFlightI"`
+	Applied   string    `json:"applied"` // "n/a", "applied", "not-applied"
+	Killed    bool      `json:"killed"`
+	Clean     bool      `json:"clean"`
+	MaxAckCas uint64    `json:"maxAckCas"`
+	Reader    ReaderOut `json:"reader"`
+	Problems  []string  `json:"problems"`
+	WriterErr string    `json:"writerErr,omitempty"`
+	KillDesc  string    `json:"killDesc"`
 }
 
 type lastState struct {
@@ -258,7 +258,7 @@ func (r *Run) Execute() Outcome {
 	if adminInflight != nil {
 		dropFilter(adminInflight)
 	}
-	got := AdminState{DDocs: rd.DDocDefs, Colls: append([]string(nil), rd.Colls...)}
+	got := AdminState{DDocs: rd.DDocDefs, Colls: append([]string(nil), rd.Colls...), Fill: rd.AdminFill}
 	sort.Strings(got.Colls)
 	sort.Strings(base.Colls)
 	same := func(a, b AdminState) bool {
@@ -268,6 +268,11 @@ func (r *Run) Execute() Outcome {
 		for k, v := range a.DDocs {
 			if b.DDocs[k] != v {
 				return false
+			}
+		}
+		for _, c := range a.Colls {
+			if strings.HasPrefix(c, "adm.") && a.Fill[c] != b.Fill[c] {
+				return false // an admin-created collection must hold exactly the filler documents written into it
 			}
 		}
 		return true
@@ -283,7 +288,7 @@ func (r *Run) Execute() Outcome {
 			if adminInflight != nil {
 				what += " (nor what the interrupted " + adminKind + " would have left)"
 			}
-			out.Problems = append(out.Problems, fmt.Sprintf("admin-state|after %s the reopened bucket has collections %v and design documents %v, which is not what %s: collections %v, design documents %v", out.KillDesc, got.Colls, keysOf(got.DDocs), what, base.Colls, keysOf(base.DDocs)))
+			out.Problems = append(out.Problems, fmt.Sprintf("admin-state|after %s the reopened bucket has collections %v (filler documents %v) and design documents %v, which is not what %s: collections %v (filler documents %v), design documents %v", out.KillDesc, got.Colls, got.Fill, keysOf(got.DDocs), what, base.Colls, base.Fill, keysOf(base.DDocs)))
 		}
 	}
 	// ---- durability of acknowledged calls, atomicity of the in-flight one
